@@ -16,11 +16,14 @@ package libp2p
 import (
 	"bytes"
 	"context"
+	"crypto/ecdsa"
 	"encoding/json"
+	"errors"
 	"fmt"
 	"io"
 	"log/slog"
 	"math/rand"
+	"net"
 	"reflect"
 	"sort"
 	"sync"
@@ -29,17 +32,30 @@ import (
 	"unsafe"
 
 	"github.com/ethereum/go-ethereum/common"
+	ethcrypto "github.com/ethereum/go-ethereum/crypto"
+	libp2pcrypto "github.com/libp2p/go-libp2p/core/crypto"
 	"github.com/libp2p/go-libp2p/core/host"
 	"github.com/libp2p/go-libp2p/core/network"
 	"github.com/libp2p/go-libp2p/core/peer"
+	"github.com/libp2p/go-libp2p/core/peerstore"
 	"github.com/libp2p/go-libp2p/core/protocol"
+	"github.com/libp2p/go-libp2p/p2p/host/peerstore/pstoremem"
+	ma "github.com/multiformats/go-multiaddr"
+	mockkeysigner "github.com/primevprotocol/mev-commit/pkg/keysigner/mock"
 	"github.com/primevprotocol/mev-commit/pkg/p2p"
+	"github.com/primevprotocol/mev-commit/pkg/p2p/libp2p/internal/handshake"
+	"github.com/primevprotocol/mev-commit/pkg/signer"
+	"github.com/primevprotocol/mev-commit/pkg/util"
 	"google.golang.org/protobuf/types/known/structpb"
 )
 
 type c14Ev struct {
-	K string // enrol | closed | lookup | track | start | end | rmstream | enrolrace | block | reenrolrace
+	K string // connect | enrol | closed | lookup | track | start | end | rmstream | enrolrace | block | reenrolrace
 	//              block: Service.blockPeer(peer P, forever)
+	//              connect: the enrolment is made by Service.Connect (outbound): real handshake with a
+	//              real responder over an in-memory pipe, on connection C whose IsClosed answers
+	//              Closed; the proven address is that of peer P's key, the role R.  When the peer is
+	//              connected already Connect does not get that far: an ordinary enrol is made instead
 	//              reenrolrace: connection C closes; while the notification of that is being consumed
 	//              connection C2 of the same peer is enrolled
 	//              enrolrace: addPeer on an open connection that closes while addPeer runs: its
@@ -76,6 +92,7 @@ type c14Step struct {
 	Panic bool
 	Seen  bool  // false: the state right after the event could not be observed
 	Pend  int64 // notifications in flight when the call of this step returned
+	Out   int64 // 0: direct addPeer; else what Service.Connect returned: 2 the peer, 1 an error (Coq: o_out = Out-1)
 	Snap  c14Snap
 }
 
@@ -156,7 +173,21 @@ func (s *c14Stream) wasReset() bool {
 type c14Host struct {
 	host.Host
 	handler network.StreamHandler
+	out     network.Stream // what the next NewStream returns (outbound handshake)
+	ps      peerstore.Peerstore
 }
+
+func (h *c14Host) Connect(context.Context, peer.AddrInfo) error { return nil }
+func (h *c14Host) NewStream(context.Context, peer.ID, ...protocol.ID) (network.Stream, error) {
+	if h.out == nil {
+		return nil, errors.New("c14: no outbound stream prepared")
+	}
+	s := h.out
+	h.out = nil
+	return s, nil
+}
+func (h *c14Host) Network() network.Network       { return c14Net{} }
+func (h *c14Host) Peerstore() peerstore.Peerstore { return h.ps }
 
 func (h *c14Host) SetStreamHandlerMatch(_ protocol.ID, _ func(protocol.ID) bool, f network.StreamHandler) {
 	h.handler = f
@@ -252,12 +283,74 @@ func c14Await(what string, chans ...chan struct{}) int {
 	panic("c14: wrapper did not reach the next park point: " + what)
 }
 
+// identities: peer i < 8 has a fixed secp256k1 key; its peer id and Ethereum address are the ones
+// libp2p and the handshake derive from that key (needed for the real outbound handshake).  Address
+// indices beyond the keyed peers are synthetic.
+type c14Ident struct {
+	key  *ecdsa.PrivateKey
+	pid  peer.ID
+	addr common.Address
+}
+
+var (
+	c14IdentOnce sync.Once
+	c14Idents    []c14Ident // 0..7 the remote peers, 8 the local node
+)
+
+func c14Identities() []c14Ident {
+	c14IdentOnce.Do(func() {
+		for i := 0; i < 9; i++ {
+			raw := make([]byte, 32)
+			raw[0], raw[30], raw[31] = 0xc1, 0x14, byte(i+1)
+			key, err := ethcrypto.ToECDSA(raw)
+			if err != nil {
+				panic(err)
+			}
+			lk, err := libp2pcrypto.UnmarshalSecp256k1PrivateKey(util.PadKeyTo32Bytes(key.D))
+			if err != nil {
+				panic(err)
+			}
+			id, err := peer.IDFromPublicKey(lk.GetPublic())
+			if err != nil {
+				panic(err)
+			}
+			c14Idents = append(c14Idents, c14Ident{key, id, ethcrypto.PubkeyToAddress(key.PublicKey)})
+		}
+	})
+	return c14Idents
+}
+
 func c14Addr(i int) common.Address {
+	if i >= 0 && i < 8 {
+		return c14Identities()[i].addr
+	}
 	var a common.Address
 	a[0] = 0xc1
 	a[19] = byte(i + 1)
 	return a
 }
+
+type c14Registry struct{}
+
+func (c14Registry) CheckProviderRegistered(context.Context, common.Address) bool { return true }
+
+// the stream Service.Connect opens for its handshake: one end of an in-memory pipe, on a fake
+// connection whose IsClosed answer the driver controls
+type c14Pipe struct {
+	network.Stream
+	end  net.Conn
+	conn *c14Conn
+}
+
+func (s *c14Pipe) Conn() network.Conn          { return s.conn }
+func (s *c14Pipe) Read(b []byte) (int, error)  { return s.end.Read(b) }
+func (s *c14Pipe) Write(b []byte) (int, error) { return s.end.Write(b) }
+func (s *c14Pipe) Close() error                { return s.end.Close() }
+func (s *c14Pipe) Reset() error                { return s.end.Close() }
+
+type c14Net struct{ network.Network }
+
+func (c14Net) ClosePeer(peer.ID) error { return nil }
 
 func c14Run(in c14In, hdrFrame []byte, slow int) (obs c14Obs) {
 	w := &c14World{addrs: map[common.Address]int{}}
@@ -265,8 +358,19 @@ func c14Run(in c14In, hdrFrame []byte, slow int) (obs c14Obs) {
 		w.addrs[c14Addr(i)] = i
 	}
 	logger := slog.New(slog.NewTextHandler(io.Discard, nil))
-	fh := &c14Host{}
+	ps, err := pstoremem.NewPeerstore()
+	if err != nil {
+		panic(err)
+	}
+	fh := &c14Host{ps: ps}
+	self := c14Identities()[8]
+	hsA, err := handshake.New(mockkeysigner.NewMockKeySigner(self.key, self.addr), p2p.PeerTypeBidder, "verif", signer.New(),
+		c14Registry{}, GetEthAddressFromPeerID)
+	if err != nil {
+		panic(err)
+	}
 	svc := &Service{
+		hsSvc:      hsA,
 		baseCtx:    &c14Ctx{w},
 		host:       fh,
 		peers:      newPeerRegistry(),
@@ -296,7 +400,7 @@ func c14Run(in c14In, hdrFrame []byte, slow int) (obs c14Obs) {
 	pids := make([]peer.ID, in.NP)
 	conns := make([][]*c14Conn, in.NP)
 	for p := 0; p < in.NP; p++ {
-		pids[p] = peer.ID(fmt.Sprintf("c14-peer-%d", p))
+		pids[p] = c14Identities()[p].pid
 		conns[p] = make([]*c14Conn, in.NC)
 		for k := 0; k < in.NC; k++ {
 			conns[p][k] = &c14Conn{pid: pids[p], p: p, k: k}
@@ -510,6 +614,47 @@ func c14Run(in c14In, hdrFrame []byte, slow int) (obs c14Obs) {
 				}
 			}()
 			switch ev.K {
+			case "connect":
+				c := conns[ev.P][ev.C]
+				c.closed = ev.Closed || c.notified
+				st.Ev = c14Ev{K: "enrol", P: ev.P, C: ev.C, A: ev.P, R: ev.R, Closed: c.closed}
+				if _, connected := reg.isConnected(pids[ev.P]); connected {
+					if reg.addPeer(c, &p2p.Peer{EthAddress: c14Addr(ev.P), Type: p2p.PeerType(ev.R)}) {
+						st.Ret = 1
+					}
+					return
+				}
+				remote := c14Identities()[ev.P]
+				hsB, err := handshake.New(mockkeysigner.NewMockKeySigner(remote.key, remote.addr), p2p.PeerType(ev.R), "verif",
+					signer.New(), c14Registry{}, GetEthAddressFromPeerID)
+				if err != nil {
+					panic("c14: " + err.Error())
+				}
+				endA, endB := net.Pipe()
+				fh.out = &c14Pipe{end: endA, conn: c}
+				ctx, cancel := context.WithTimeout(context.Background(), c14Wait)
+				respDone := make(chan error, 1)
+				go func() {
+					_, err := hsB.Handle(ctx, newStream(&c14Pipe{end: endB}, nil, nil), self.pid)
+					respDone <- err
+				}()
+				dead, _ := ma.NewMultiaddr("/ip4/127.0.0.1/tcp/1")
+				info, _ := peer.AddrInfo{ID: remote.pid, Addrs: []ma.Multiaddr{dead}}.MarshalJSON()
+				got, cerr := svc.Connect(ctx, info)
+				rerr := <-respDone
+				cancel()
+				_ = endA.Close()
+				_ = endB.Close()
+				if rerr != nil || (cerr != nil && !errors.Is(cerr, p2p.ErrPeerNotFound)) {
+					panic(fmt.Sprintf("c14: outbound handshake failed: initiator %v, responder %v", cerr, rerr))
+				}
+				st.Ret, st.Out = -1, 1
+				if cerr == nil {
+					st.Out = 2
+					if got.EthAddress != remote.addr || int(got.Type) != ev.R {
+						panic("c14: Connect returned another identity than the handshake proved")
+					}
+				}
 			case "enrol":
 				c := conns[ev.P][ev.C]
 				// a connection whose closure has been notified answers IsClosed = true for ever
@@ -730,7 +875,7 @@ func c14Coq(id int, in c14In, obs c14Obs) string {
 		snap := coqRecord("sn_over", c14Zss(sn.Over), "sn_under", c14Zss(sn.Under), "sn_conns", c14Zss(sn.Conns),
 			"sn_streams", c14Zss(sn.Streams), "sn_notes", c14Zs(sn.Notes), "sn_sw", c14Zs(sn.Sw),
 			"sn_ctx", c14Zs(sn.Ctx), "sn_started", c14Zs(sn.Started))
-		evs = append(evs, coqRecord("o_ev", t, "o_ret", coqZ(st.Ret), "o_panic", coqBool(st.Panic), "o_seen", coqBool(st.Seen), "o_pending", coqZ(st.Pend), "o_snap", snap))
+		evs = append(evs, coqRecord("o_ev", t, "o_ret", coqZ(st.Ret), "o_panic", coqBool(st.Panic), "o_seen", coqBool(st.Seen), "o_pending", coqZ(st.Pend), "o_out", coqZ(st.Out-1), "o_snap", snap))
 	}
 	return coqRecord("id", coqN(uint64(id)), "c_np", coqN(uint64(in.NP)), "c_nc", coqN(uint64(in.NC)),
 		"c_na", coqN(uint64(in.NA)), "c_ns", coqN(uint64(in.NS)), "c_evs", coqList(evs))
@@ -775,7 +920,11 @@ func (g *c14Gen) enrol(p, k int) {
 	if !closed && g.r.Intn(6) == 0 {
 		closed = true // closed, notification still to come (or already delivered while untracked)
 	}
-	g.add(c14Ev{K: "enrol", P: p, C: k, A: a, R: role, Closed: closed})
+	kind := "enrol"
+	if a == p && g.r.Intn(4) == 0 {
+		kind = "connect" // the same enrolment made by the outbound path
+	}
+	g.add(c14Ev{K: kind, P: p, C: k, A: a, R: role, Closed: closed})
 	g.enrolled[[2]int{p, k}] = true
 }
 
@@ -1079,6 +1228,10 @@ func TestVerifC14(t *testing.T) {
 	run("pinned", small(c14Ev{K: "lookup"}, c14Ev{K: "track"}, c14Ev{K: "enrol"}, c14Ev{K: "closed"}, c14Ev{K: "closed"}))
 	run("pinned", small(c14Ev{K: "enrol"}, c14Ev{K: "block"}, c14Ev{K: "closed"}))
 	run("pinned", c14In{NP: 1, NC: 2, NA: 1, NS: 1, Evs: []c14Ev{{K: "enrol"}, {K: "reenrolrace", C: 0, C2: 1}, {K: "closed", C: 1}}})
+	run("pinned", small(c14Ev{K: "connect", Closed: true}))
+	run("pinned", small(c14Ev{K: "connect", R: 1}, c14Ev{K: "lookup"}, c14Ev{K: "track"}, c14Ev{K: "start"}, c14Ev{K: "closed"}))
+	run("pinned", c14In{NP: 2, NC: 2, NA: 2, NS: 1, Evs: []c14Ev{{K: "enrol", P: 1, C: 0, A: 1, R: 2}, {K: "connect", P: 1, C: 1, R: 2, Closed: true},
+		{K: "connect", P: 0, C: 0, R: 1, Closed: true}, {K: "closed", P: 1, C: 0}, {K: "connect", P: 1, C: 1, R: 1, Closed: true}}})
 	run("pinned", small(c14Ev{K: "enrolrace"}))
 	run("pinned", small(c14Ev{K: "enrolrace"}, c14Ev{K: "lookup"}, c14Ev{K: "track"}, c14Ev{K: "start"}))
 	run("pinned", c14In{NP: 2, NC: 2, NA: 2, NS: 2, Evs: []c14Ev{{K: "enrol", P: 0, C: 0, A: 0, R: 1}, {K: "enrol", P: 0, C: 1, A: 0, R: 1},
